@@ -10,8 +10,9 @@ Variable H : list N -> list N.
 Variable expected : N -> list N.
 Variable npieces : N.
 Variable psize : N -> N.
-Notation accept := (accept H expected npieces psize).
-Notation run := (run H expected npieces psize).
+Variable repaired : bool.
+Notation accept := (accept H expected npieces psize repaired).
+Notation run := (run H expected npieces psize repaired).
 
 Definition in_piece (x : block) : Prop := b_off x + b_len x <= psize (b_idx x).
 Definition GeoInv (s : state) : Prop := forall x, In x (blocks s) -> in_piece x.
@@ -75,7 +76,7 @@ Theorem bounds : forall st0 c0 tr s p d s' i b x t,
   0 < lenN d /\ t_pos t + lenN d <= b_len x /\ b_off x + t_pos t + lenN d <= psize i.
 Proof.
   intros st0 c0 tr s p d s' i b x t R A C Fx Ft.
-  destruct (bounds_in_block H expected npieces psize _ _ _ _ _ _ _ _ A C Fx Ft) as (B1 & B2 & B3).
+  destruct (bounds_in_block H expected npieces psize repaired _ _ _ _ _ _ _ _ A C Fx Ft) as (B1 & B2 & B3).
   assert (G : GeoInv s) by (eapply geo_run; [|exact R]; intros y []).
   destruct (find_block_some _ _ _ _ Fx) as (Hx & Ex & _).
   specialize (G x Hx). unfold in_piece in G. rewrite Ex in G. lia.
